@@ -275,6 +275,15 @@ def unalloc(fl, rf):
     return rf
 
 
+def unalloc_deep(fl, rf):
+    """rf with every buffer identity removed: the VALUE the expression has (a refilled buffer `x[...] = v` holds v)"""
+    def f(a, at, nargs):
+        if at.head == 'alloc' and nargs and isinstance(nargs[0], RF):
+            return nargs[0]
+        return None
+    return fl.tab.rewrite(rf, f) if isinstance(rf, RF) else rf
+
+
 def call_kw(at, name, pos=None):
     """Keyword (or positional #pos) argument of a call atom."""
     kwn = at.extra[1:]
@@ -739,35 +748,40 @@ _SIGS = {}
 
 
 def _signatures(ix):
-    """name -> parameter names (without self / cls) when every function or method of that name in the analysed tree
-    declares exactly the same positional parameters and none takes *args / **kwargs / keyword-only parameters"""
+    """(name, is_method_call) -> parameter names (without self / cls) when every module-level function (for a bare
+    call) or every method (for a call on a receiver) of that name in the analysed tree declares exactly the same
+    positional parameters and none takes *args / **kwargs / keyword-only parameters"""
     key = id(ix)
     if key not in _SIGS:
-        seen = {}
+        seen = {False: {}, True: {}}
         for m in ix.modules.values():
             for name, f in m.functions.items():
-                seen.setdefault(name, []).append((f, False))
+                seen[False].setdefault(name, []).append((f, False))
             for c in m.classes.values():
                 for name, lst in c.methods.items():
                     for f in lst:
-                        seen.setdefault(name, []).append((f, 'staticmethod' not in f.decorators()))
-        table = {}
-        for name, fs in seen.items():
-            if name in _LIBRARY_METHODS or name.startswith('__'):
-                continue
-            sigs = set()
-            for f, bound in fs:
-                a = f.node.args
-                if a.vararg or a.kwarg or a.kwonlyargs or a.posonlyargs:
-                    sigs.add(None)
+                        seen[True].setdefault(name, []).append((f, 'staticmethod' not in f.decorators()))
+        tables = {}
+        for kind, names in seen.items():
+            table = {}
+            for name, fs in names.items():
+                if (kind and name in _LIBRARY_METHODS) or name.startswith('__'):
                     continue
-                ps = [x.arg for x in a.args]
-                sigs.add(tuple(ps[1:] if bound and ps else ps))
-            if len(sigs) == 1 and None not in sigs:
-                table[name] = list(sigs.pop())
+                sigs = set()
+                for f, bound in fs:
+                    a = f.node.args
+                    if a.vararg or a.kwarg or a.kwonlyargs or a.posonlyargs:
+                        sigs.add(None)
+                        continue
+                    ps = [x.arg for x in a.args]
+                    sigs.add(tuple(ps[1:] if bound and ps else ps))
+                if len(sigs) == 1 and None not in sigs:
+                    table[name] = list(sigs.pop())
+            tables[kind] = table
         _SIGS.clear()
-        _SIGS[key] = table
-    return lambda name: _SIGS[key].get(name.rsplit('.', 1)[-1] if isinstance(name, str) else name)
+        _SIGS[key] = tables
+    return lambda name, method=False: _SIGS[key][bool(method)].get(
+        name.rsplit('.', 1)[-1] if isinstance(name, str) else name)
 
 
 _RECORDS = {}
